@@ -55,10 +55,12 @@ class C12:
         inter = ("bin", "-", ("call", MIN_, (e1, e2), ()), ("call", MAX_, (s1, s2), ()))
         width = ("call", MIN_, (("bin", "-", e1, s1), ("bin", "-", e2, s2)), ())
         modes = {
-            "no threshold": ({("cmp", "is", A, NONE): True, ("cmp", "isnot", A, NONE): False, ("cmp", "is", R, NONE): True, ("cmp", "isnot", R, NONE): False},
-                             ("const", 0)),
-            "absolute": ({("cmp", "is", A, NONE): False, ("cmp", "isnot", A, NONE): True, ("cmp", "is", R, NONE): True, ("cmp", "isnot", R, NONE): False}, A),
+            "no threshold": ({("cmp", "is", A, NONE): True, ("cmp", "isnot", A, NONE): False, ("cmp", "is", R, NONE): True, ("cmp", "isnot", R, NONE): False,
+                              A: None, R: None}, ("const", 0)),
+            "absolute": ({("cmp", "is", A, NONE): False, ("cmp", "isnot", A, NONE): True, ("cmp", "is", R, NONE): True, ("cmp", "isnot", R, NONE): False,
+                          R: None}, A),
             "relative": ({("cmp", "is", A, NONE): True, ("cmp", "isnot", A, NONE): False, ("cmp", "is", R, NONE): False, ("cmp", "isnot", R, NONE): True,
+                          A: None,
                           ("cmp", "lt", R, ("const", 0)): False, ("cmp", "lt", ("const", 1), R): False,
                           ("cmp", "le", ("const", 0), R): True, ("cmp", "le", R, ("const", 1)): True}, ("bin", "*", R, width)),
         }
@@ -103,8 +105,9 @@ class C12:
         # R12.3 rejections
         bad = None
         n = 0
-        for a_given, r_val in itertools.product([False, True], [None, -1e-9, 0.0, 0.5, 1.0, 1.0 + 1e-9, -1.0, 2.0]):
-            env = {("cmp", "is", A, NONE): not a_given, ("cmp", "isnot", A, NONE): a_given, R: r_val}
+        for a_val, r_val in itertools.product([None, 0.0, 0.5, 1.5], [None, -1e-9, 0.0, 0.5, 1.0, 1.0 + 1e-9, -1.0, 2.0]):
+            a_given = a_val is not None
+            env = {("cmp", "is", A, NONE): not a_given, ("cmp", "isnot", A, NONE): a_given, R: r_val, A: a_val}
             rej = False
             for r in s.raises:
                 lv = peval(r.live, env)
@@ -115,14 +118,14 @@ class C12:
             want = (a_given and r_val is not None) or (r_val is not None and not (0 <= r_val <= 1))
             n += 1
             if rej != want:
-                bad = (a_given, r_val, rej)
+                bad = (a_val, r_val, rej)
                 break
         if bad is None:
             ctx.ok("R12.3", site, f"rejects exactly: both thresholds given, or relative outside [0, 1] ({n} cases incl. endpoints)")
         else:
             a_given, r_val, rej = bad
             ctx.bad("R12.3", self.file, "intervals_overlap", "threshold validation",
-                    f"with min_absolute_overlap {'given' if a_given else 'None'} and min_relative_overlap={r_val} the call is "
+                    f"with min_absolute_overlap={a_given} and min_relative_overlap={r_val} the call is "
                     f"{'rejected' if rej else 'accepted'} (specification: reject both-together and relative outside [0, 1]; 0 and 1 are valid)",
                     s.node.lineno, witness={"absolute_given": a_given, "relative": r_val})
 
@@ -221,10 +224,11 @@ class C12:
         bad = None
         n = 0
         mv, cs, ce = 1.0, 10.0, 20.0
-        for endv in (10.5, 11.0, 11.5, 25.0):
-            for startv in (5.0, 18.5, 19.0, 19.5):
-                if startv > endv:
-                    continue  # not a geometry
+        placements = [(sv, ev) for ev in (10.5, 11.0, 11.5, 25.0) for sv in (5.0, 18.5, 19.0, 19.5) if sv <= ev]
+        # zero-duration geometries (time stamps, points, vertical lines) around and on both thresholds
+        placements += [(t, t) for t in (5.0, 10.5, 11.0, 11.5, 15.0, 18.5, 19.0, 19.5, 25.0)]
+        for startv, endv in placements:
+            if True:
                 env = {m: mv, ("attr", clip, "start_time"): cs, ("attr", clip, "end_time"): ce, st: startv, en: endv}
                 outs = []
                 for r in s.returns:
